@@ -9,7 +9,9 @@ import threading
 import time
 
 from vf import poolmon
-from vf.probes import EXC_CLASSES
+from vf.probes import EXC_CLASSES, BASE_EXC_CLASSES
+
+TASK_EXC = EXC_CLASSES + BASE_EXC_CLASSES
 
 
 class Scenario(object):
@@ -21,7 +23,7 @@ class Scenario(object):
 
 def gen_scenario(rng):
     sc = {"mode": "direct" if rng.random() < 0.7 else "pool",
-          "task": {"kind": "ret" if rng.random() < 0.6 else "exc", "exc": rng.randrange(len(EXC_CLASSES)),
+          "task": {"kind": "ret" if rng.random() < 0.6 else "exc", "exc": rng.randrange(len(TASK_EXC)),
                    "falsy": rng.choice([None, None, 0, 1, 2, 3, 4]), "body_ms": rng.choice([0, 0, 0.2, 1, 3])},
           "regs": [], "observers": [], "exec_delay_ms": rng.choice([0, 0, 0.3, 1, 2])}
     for _ in range(rng.choice([0, 1, 1, 2, 2, 3])):
@@ -56,7 +58,7 @@ class FutureRun(object):
         self.ret = FALSY[t["falsy"]] if t["falsy"] is not None else object()
         self.exc = None
         if t["kind"] == "exc":
-            cls = EXC_CLASSES[t["exc"]]
+            cls = TASK_EXC[t["exc"]]
             self.exc = cls("task failed")
         self.args = (object(),)
         self.kwargs = {"k": object()}
